@@ -242,6 +242,9 @@ impl<'a, T: FormatHandler + 'a> FormatContext<'a, T> {
             self.report.clone(),
         );
         visitor.skip_context.update_with_attrs(&self.krate.attrs);
+        // `#![rustfmt::skip::macros(..)]` / `#![rustfmt::skip::attributes(..)]` at the top of an
+        // out-of-line module file.
+        visitor.skip_context.update_with_attrs(module.attrs());
         visitor.is_macro_def = is_macro_def;
         visitor.last_pos = snippet_provider.start_pos();
         visitor.skip_empty_lines(snippet_provider.end_pos());
